@@ -71,6 +71,13 @@ def r1(repo, chk):
             chk.ob("R1", f"{fn.qual.split('.')[-1]}: the current peer connection ID is retired before another one is taken into use", ok, "an abandoned connection ID is never announced with RETIRE_CONNECTION_ID: the peer keeps it active and issues no replacement", fn.loc(c))
     if n < 2:
         raise AnalysisError("_consume_peer_cid call sites not found")
+    # conversely: the ID in use is only retired when a replacement is then taken into use
+    for fn in _conn_fns(repo):
+        for r in fn.calls(name="self._retire_peer_cid"):
+            if r.args and norm(r.args[0]) == "self._peer_cid":
+                cons = fn.calls(name="self._consume_peer_cid")
+                ok = any(fn.always_after(r, c) for c in cons)
+                chk.ob("R1", f"{fn.qual.split('.')[-1]}: the connection ID in use is retired only when another one is then taken into use", ok, "RETIRE_CONNECTION_ID is announced for the ID the endpoint keeps addressing packets to (no spare ID available): the peer drops them or closes with PROTOCOL_VIOLATION", fn.loc(r))
     for fn in _conn_fns(repo):
         for st, t, v in fn.assigns(chain="self._peer_cid"):
             ok = fn.qual.split(".")[-1] in ("__init__", "_consume_peer_cid")
@@ -261,6 +268,14 @@ def r4(repo, chk):
     rd = Fn(repo, CONN + "receive_datagram")
     loops = [l for l in rd.stmts(lambda s: isinstance(s, ast.For)) if norm(l.iter) == "self._host_cids"]
     ok = any(any(isinstance(n, ast.Compare) and natom(norm(n)) == natom(f"header.destination_cid == {norm(l.target)}.cid") for n in ast.walk(l)) for l in loops)
+    # ... and on nothing else: an issued ID is accepted whether or not its announcement is (still) marked as sent
+    for l in loops:
+        for st, t, v in rd.assigns(chain="destination_cid_seq"):
+            if inside(st, l):
+                inner = [a for a in rd.guard_atoms(st) if a not in rd.guard_atoms(l)]
+                if inner != [natom(f"header.destination_cid == {norm(l.target)}.cid")]:
+                    ok = False
+                    chk.ob("R4", "receive_datagram: the only condition for matching an issued ID is equality with the packet's destination ID", False, f"match guarded by {inner}: packets to an ID that was issued and not retired are dropped (e.g. while its NEW_CONNECTION_ID awaits retransmission)", rd.loc(st))
     # the same search written as a generator / comprehension over the issued IDs
     for g in rd.nodes(ast.comprehension):
         if norm(g.iter) == "self._host_cids" and isinstance(g.target, ast.Name) and [natom(norm(i)) for i in g.ifs] == [natom(f"header.destination_cid == {g.target.id}.cid")]:
